@@ -151,6 +151,10 @@ class PointTier(textgrid_tier.TextgridTier):
             the modified version of the current tier
         """
         referenceTimestamps = referenceTier.timestamps
+        if len(referenceTimestamps) == 0:
+            raise errors.ArgumentError(
+                "Cannot dejitter: the reference tier has no timestamps"
+            )
 
         newEntries = []
         for time, label in self.entries:
